@@ -111,8 +111,16 @@ func (d *verifDNS) serve() {
 			if qtype == 33 {
 				for _, p := range ports {
 					rd := []byte{0, 0, 0, 1}
-					rd = binary.BigEndian.AppendUint16(rd, uint16(p))
-					rd = append(rd, dnsName("k"+itoa(p)+".kdc.verif.")...)
+					rd = binary.BigEndian.AppendUint16(rd, uint16(p&0xffff))
+					if p&0xffff == 0 {
+						// "service decidedly not available" (RFC 2782): target ".", port 0; the bits above the port give
+						// the record's priority
+						rd[1] = byte(p >> 16)
+						rd = append(rd, 0)
+					} else {
+						rd[1] = byte(p >> 16)
+						rd = append(rd, dnsName("k"+itoa(p&0xffff)+".kdc.verif.")...)
+					}
 					answers = append(answers, rr(33, rd))
 				}
 			}
